@@ -129,6 +129,21 @@ func shJudgeSeq(c *mon.Ctx, in *shSeq, legacy bool) {
 		return
 	}
 	tx := cur.Build()
+	// results handed to the caller earlier must stay what they were (the caller owns them)
+	type kept struct {
+		live, snap []byte
+		what       string
+	}
+	var retained []kept
+	checkRetained := func(k int) bool {
+		for _, r := range retained {
+			if !bytes.Equal(r.live, r.snap) {
+				c.Violationf(P+":sequence:returned-result-changed-later:"+r.what, "a %s returned by an earlier call has changed by step %d of the sequence (now %x…, was %x…): the result shares memory with library state", r.what, k, r.live[:min(len(r.live), 24)], r.snap[:min(len(r.snap), 24)])
+				return false
+			}
+		}
+		return true
+	}
 	for k := range in.Steps {
 		st := &in.Steps[k]
 		if !shApplyEdit(tx, cur, st) {
@@ -160,6 +175,20 @@ func shJudgeSeq(c *mon.Ctx, in *shSeq, legacy bool) {
 			return
 		}
 		c.Count("sequence:step:" + st.Edit)
+		retained = append(retained, kept{got, append([]byte{}, got...), "signature hash"})
+		var pre []byte
+		var perr error
+		if legacy {
+			c.Try("bt.(*Tx).CalcInputPreimageLegacy", func() { pre, perr = tx.CalcInputPreimageLegacy(uint32(idx), sighash.Flag(st.HashType)) })
+		} else {
+			c.Try("bt.(*Tx).CalcInputPreimage", func() { pre, perr = tx.CalcInputPreimage(uint32(idx), sighash.Flag(st.HashType)) })
+		}
+		if perr == nil && len(pre) > 0 {
+			retained = append(retained, kept{pre, append([]byte{}, pre...), "preimage"})
+		}
+		if !checkRetained(k) {
+			return
+		}
 		if !bytes.Equal(got, want[:]) {
 			c.Violationf(P+":sequence:stale-or-wrong-digest-after:"+st.Edit, "step %d of a sequence on one tx object: after in-place edit %q the signature hash (idx %d, type %#x) is %x, the reference digest of the transaction as it now is: %x", k, st.Edit, idx, st.HashType, got, want[:])
 			return
